@@ -110,7 +110,7 @@ def _custom_part(chk, tier):
              ({':-a': 'p'}, 'SelectorSyntaxError'), ({':--': 'p'}, None), ({':--a b': 'p'}, 'SelectorSyntaxError'),
              ({':--a': ''}, None), ({':--a': ':--a'}, 'SelectorSyntaxError'), ({':--a': ':--A'}, 'SelectorSyntaxError'),
              ({':--a': '\\110000'}, None), ({':--\\110000': 'p'}, None), ({'': 'p'}, 'SelectorSyntaxError'), ({':--a': ':--b', ':--b': ':--c', ':--c': ':--a'}, 'SelectorSyntaxError'),
-             ({':--a': '@media'}, 'NotImplementedError'), ({':--a': 'p::before'}, 'NotImplementedError'), ({':--\x00': 'p'}, None)]
+             ({':--a': '@page'}, 'NotImplementedError'), ({':--a': 'p::before'}, 'NotImplementedError'), ({':--\x00': 'p'}, None)]
     for m, expect in extra:
         for pat in (':--a', 'p:--A', ':is(:--a, :--b)'):
             try:
@@ -165,4 +165,73 @@ def main(tier):
             chk.violation('chars-sim|' + key, what, case)
     chk.coverage['traces_validated_against_impl'] += len(cases)
     _custom_part(chk, tier)
+    _parser_part(chk, tier)
     return chk.finish()
+
+
+TOK_TEXT = {'tag': 'a', 'idcls': '.c', 'attr': '[t]', 'ps': ':root', 'ps_nomatch': ':hover', 'ps_bad': ':foo', 'nth': ':nth-child(2n+1)',
+            'nth_of': ':nth-child(2 of ', 'lang': ':lang(en)', 'dir': ':dir(ltr)', 'contains': ':-soup-contains(x)', 'open_is': ':is(',
+            'open_not': ':not(', 'open_has': ':has(', 'open_matches': ':matches(', 'open_nomatch': ':current(', 'custom': ':--al',
+            'custom_undef': ':--zz', 'amp': '&', 'close': ')', 'comma': ',', 'ws': ' ', 'comb': '>', 'at': '@page', 'pe': '::before', 'inv': '$'}
+TOK_ALT = {'idcls': '#i', 'open_is': ':where(', 'comb': '~', 'ps': ':checked', 'open_nomatch': ':host(', 'ps_bad': ':is', 'nth': ':nth-of-type(odd)',
+           'contains': ':-soup-contains-own("x", y)', 'lang': ':lang("de-*", en)', 'attr': '[t~="x" i]', 'comma': ' , ', 'inv': '\x01'}
+
+
+def _pwork(H, chunk):
+    sv = H['sv']
+    viols = []
+    n = 0
+    agree = 0
+    samp = None
+    for case in chunk:
+        toks = case['toks']
+        for table in (TOK_TEXT, dict(TOK_TEXT, **TOK_ALT)):
+            text = ''.join(table[t] for t in toks)
+            out = _outcome(sv, text, custom={':--al': 'b'})
+            n += 1
+            if out != 'ok' and out not in ALLOWED:
+                viols.append(('%r' % text, 'compile(%r) raised %s' % (text, out), {'selector': text, 'group': out.split(':')[0]}))
+            elif out == case['outcome']:
+                agree += 1
+            else:
+                viols.append(('DRIFT', {'tokens': toks, 'text': text, 'model': case['outcome'], 'code': out}, None))
+        if samp is None and len(toks) > 2 and case['outcome'] == 'ok':
+            samp = {'tokens': toks, 'text': ''.join(TOK_TEXT[t] for t in toks), 'predicted': case['outcome']}
+    return viols, n, agree, samp
+
+
+def _parser_part(chk, tier):
+    """Parser.tla (machine M3 over token kinds): T-Total checked by TLC incl. liveness; every lexically possible token sequence is
+    concretised (two spellings per token) and compiled: the outcome class is gated, agreement with the model's prediction is recorded."""
+    import multiprocessing as mp
+    toks = '{' + ', '.join('"%s"' % t for t in sorted(TOK_TEXT)) + '}'
+    maxlen = 3 if tier == 'quick' else 4
+    cfg = replay.write_cfg('parser', {'Tokens': toks, 'MaxLen': maxlen}, invariants=('StackBounded', 'OneOutcome', 'NoStuck', 'Emit'),
+                           spec='Spec', properties=('Terminates',) if tier == 'quick' else ())
+    cases = []
+    try:
+        res = tlc.run('MC_C06_parser', cfg=cfg, workers=16, line_cb=cases.append)
+    finally:
+        replay.rm_cfg(cfg)
+    chk.add_tlc(res, 'parser-tokens%d' % maxlen)
+    if res.violation:
+        chk.violation('spec|parser', 'Parser.tla: %s' % res.violation, {'cfg': 'parser', 'group': 'spec', 'tlc': res.counterexample[:3000]})
+    chunks = [cases[i::128] for i in range(128) if cases[i::128]]
+    with mp.get_context('fork').Pool(16, initializer=replay._ginit, initargs=([], _init)) as pool:
+        outs = pool.map(replay._gwork, [(_pwork, c) for c in chunks])
+    total = agree_total = 0
+    for viols, n, agree, samp in outs:
+        total += n
+        agree_total += agree
+        chk.count(n)
+        chk.add_distinct(agree)
+        if samp:
+            chk.sample(samp, cap=12)
+        for key, what, case in viols:
+            if key == 'DRIFT':
+                chk.drift.append(what)
+            else:
+                case.setdefault('cfg', 'parser-tokens')
+                chk.violation('parser|' + key, what, case)
+    chk.coverage['traces_validated_against_impl'] += len(cases)
+    chk.notes['parser_model'] = {'token_sequences': len(cases), 'compiles': total, 'outcome_agrees_with_model': agree_total}
